@@ -241,23 +241,6 @@ theorem c13_immediate (H : Hier) (r : Reg) (t : Ty) (e : Bool) (kw : List (Op ×
   · simp [hn]
   · simp [hn]
 
-theorem updateAt_get_ne (f : Reg → Reg) : ∀ (w : List Reg) (i j : Nat), i ≠ j →
-    (updateAt f i w)[j]? = w[j]? := by
-  intro w
-  induction w with
-  | nil => intro i j _; cases i <;> rfl
-  | cons x xs ih =>
-    intro i j hij
-    cases i with
-    | zero =>
-      cases j with
-      | zero => exact absurd rfl hij
-      | succ m => rfl
-    | succ n =>
-      cases j with
-      | zero => rfl
-      | succ m => simpa [updateAt] using ih n m (by omega)
-
 /-- **Isolation**: an action on one registry leaves every other registry of the process exactly
     as it was (so a Glommer neither affects nor is affected by the module registry or another
     Glommer). -/
@@ -295,5 +278,90 @@ theorem c13_model_checks (H : Hier) (hH : HierFacts H) (S : Setup) (orders : Lis
     (kinds : List RegKind) (acts : List Action) :
     checkC13 H S orders kinds acts (run H (kinds.map (mkReg H S orders)) acts) = true :=
   run_checks hH acts _ _ (All2.map _ _ (rel_mk hH S orders) kinds)
+
+/-! ### non-vacuity: concrete inputs meet every hypothesis; counter-example for the forced one -/
+
+/-- a chain `B2 ⊂ B ⊂ A`, a mixin `M` with `X ⊂ B, M`, an ABC `V` with `A`, `B`, `B2`, `X` as virtual
+    subclasses, all below `object` -/
+private def exTab : HierTab where
+  mro := [("object", ["object"]), ("A", ["A", "object"]), ("B", ["B", "A", "object"]),
+          ("B2", ["B2", "B", "A", "object"]), ("M", ["M", "object"]),
+          ("X", ["X", "B", "A", "M", "object"]), ("V", ["V", "object"])]
+  sub := [("object", "object"), ("A", "A"), ("A", "object"), ("B", "B"), ("B", "A"), ("B", "object"),
+          ("B2", "B2"), ("B2", "B"), ("B2", "A"), ("B2", "object"), ("M", "M"), ("M", "object"),
+          ("X", "X"), ("X", "B"), ("X", "A"), ("X", "M"), ("X", "object"), ("V", "V"), ("V", "object"),
+          ("A", "V"), ("B", "V"), ("B2", "V"), ("X", "V")]
+  inst := [("object", "object"), ("A", "A"), ("A", "object"), ("A", "V"), ("B", "B"), ("B", "A"),
+           ("B", "object"), ("B", "V"), ("B2", "B2"), ("B2", "B"), ("B2", "A"), ("B2", "object"),
+           ("B2", "V"), ("M", "M"), ("M", "object"), ("X", "X"), ("X", "B"), ("X", "A"), ("X", "M"),
+           ("X", "object"), ("X", "V"), ("V", "V"), ("V", "object")]
+  auto := [("auto_get", [("object", "getattr"), ("A", "getattr"), ("B", "getattr"), ("B2", "getattr"),
+                         ("M", "getattr"), ("X", "getattr"), ("V", "getattr")])]
+
+private def exH : Hier := exTab.toHier
+private def exSetup : Setup := { builtinOps := [⟨"get", "auto_get", false⟩], defaults := [⟨"object", false, []⟩],
+                                 moduleOps := [] }
+
+example : tableOK exTab = true := by decide
+example : HierFacts exH := hierFacts_of_table exTab (by decide)
+
+/-- registrations `A`, `M` (get handlers), `V` (virtual), in that order, on a default registry -/
+private def exActs : List Action :=
+  [.register 0 "A" false [("get", some "hA")], .register 0 "M" false [("get", some "hM")],
+   .register 0 "V" false [("get", some "hV")], .register 0 "B" true [("get", some "hB")]]
+
+private def exReg : Reg := ((finalWorld exH [freshReg exH exSetup true] exActs)[0]?).getD {}
+
+-- the tree really nests: object → {A, M, V → {A}}? (A is a subclass of the ABC V)
+example : exReg.tree "get" =
+    .cons "object" (.cons "M" .nil (.cons "V" (.cons "A" .nil .nil) .nil)) .nil := by decide
+-- `c13_exact_wins` hypothesis: B is registered (exact) and served by its own handler
+example : odGet "B" (exReg.map "get") = some (some "hB") := by decide
+example : (getHandler exH exReg "get" "B" true).2 = .ret (some "hB") := by decide
+-- `c13_nearest_base` / `c13_nearest_nominal`-style: B2 is not registered, B is exact only, so the
+-- nearest covering base class of B2 is A; V also matches but A is a subclass of V
+example : closest exH "B2" (exReg.tree "get") = some "A" := by decide
+example : firstNominal exH "B2" (applicable exH ["object", "A", "M", "V"] "B2") = some "A" := by decide
+example : allowed exH ["object", "A", "M", "V"] "B2" = ["A"] := by decide
+-- a class with two covering bases (X ⊂ B ⊂ A and X ⊂ M): the MRO-nearer one wins
+example : closest exH "X" (exReg.tree "get") = some "A" := by decide
+example : allowed exH ["object", "A", "M", "V"] "X" = ["A"] := by decide
+-- `c13_order_independent_chain`: the same registrations in another order give a different tree
+-- but the same choice
+private def exActs' : List Action :=
+  [.register 0 "V" false [("get", some "hV")], .register 0 "B" true [("get", some "hB")],
+   .register 0 "M" false [("get", some "hM")], .register 0 "A" false [("get", some "hA")]]
+private def exReg' : Reg := ((finalWorld exH [freshReg exH exSetup true] exActs')[0]?).getD {}
+example : exReg'.tree "get" ≠ exReg.tree "get" := by decide
+example : closest exH "X" (exReg'.tree "get") = some "A" ∧ closest exH "B2" (exReg'.tree "get") = some "A" := by
+  decide
+-- the whole-history checker on a history with interleaved lookups
+example : checkC13 exH exSetup [] [.registry true]
+    (exActs ++ [.lookup 0 "get" "X" true, .lookup 0 "get" "X" false, .lookup 0 "get" "M" true])
+    (run exH [freshReg exH exSetup true]
+      (exActs ++ [.lookup 0 "get" "X" true, .lookup 0 "get" "X" false, .lookup 0 "get" "M" true])) = true := by
+  decide
+
+/-- **Counter-example for the hypothesis `inst_sub`** (forced by `matching_complete`): a "class"
+    whose `isinstance` is inherited duck typing — `isinstance(q, R2)` holds for every object with a
+    `__dict__` although `R2` is a subclass of the (registered) iterable ABC `It` and `q` is not
+    iterable.  The tree files `R2` under `It`, the lookup for `Q` never reaches it, and the answer
+    (no handler) is not the one the reference allows (`R2`'s).  The real glom does the same on the
+    same input (harness corpus case `duck-subclass`); such a hierarchy is outside the property's
+    family (the driver skips it: `tableOK` is false). -/
+private def cexTab : HierTab where
+  mro := [("R2", ["R2", "object"]), ("It", ["It", "object"]), ("Q", ["Q", "object"]), ("object", ["object"])]
+  sub := [("R2", "R2"), ("R2", "It"), ("R2", "object"), ("It", "It"), ("It", "object"), ("Q", "Q"),
+          ("Q", "object"), ("object", "object")]
+  inst := [("R2", "R2"), ("R2", "It"), ("R2", "object"), ("It", "It"), ("It", "object"),
+           ("Q", "Q"), ("Q", "object"), ("Q", "R2")]
+  auto := [("auto_get", [("R2", "getattr"), ("It", "getattr"), ("Q", "getattr")])]
+private def cexActs : List Action :=
+  [.register 0 "R2" false [("get", some "hR2")], .register 0 "It" false [("get", some "hIt")],
+   .lookup 0 "get" "Q" false]
+example : tableOK cexTab = false := by decide
+example : checkC13 cexTab.toHier { exSetup with defaults := [] } [] [.registry false] cexActs
+    (run cexTab.toHier [freshReg cexTab.toHier { exSetup with defaults := [] } false] cexActs) = false := by
+  decide
 
 end Glom.Props.C13
